@@ -17,7 +17,7 @@ import ChemModel.Driver.KineticsIO
 import ChemModel.Model.OdeBuild
 open ChemModel.Proto ChemModel.Kinetics ChemModel.KineticsIO ChemModel.OdeBuild Lean
 
-def asParam (v : Json) : Except String RateParam := do
+def asRateParam (v : Json) : Except String RateParam := do
   let kind ← getStr v "kind"
   match kind with
   | "raw" => pure (.raw (← getRat v "k"))
@@ -32,7 +32,7 @@ def asRxn' (v : Json) : Except String Rxn := do
   let prod ← asDict "prod" asNat (← field v "prod")
   let ir ← asDict "inact_reac" asNat (← field v "inact_reac")
   let ip ← asDict "inact_prod" asNat (← field v "inact_prod")
-  let p ← asParam (← field v "param")
+  let p ← asRateParam (← field v "param")
   pure { reac := reac, prod := prod, inactReac := ir, inactProd := ip, param := p }
 
 partial def asPExpr (v : Json) : Except String PExpr :=
